@@ -208,9 +208,19 @@ func oraclePipe(op string, ob *Obs) string {
 		return "sequential framing panicked: " + o.ref.Panic
 	}
 	want := typRaw(o.ref.Msgs)
+	// the input itself, independent of any framing code: what every consumer holds at the end must
+	// still concatenate to it (a message whose bytes change after delivery shows here)
+	input := unhx(strings.Fields(op)[2])
 	for i := range o.seqs {
 		if o.isNil[i] {
 			continue
+		}
+		var cat []byte
+		for k := range o.seqs[i] {
+			cat = append(cat, o.seqs[i][k].RawData...)
+		}
+		if !bytes.Equal(cat, input) {
+			return fmt.Sprintf("the raw bytes consumer %d holds after the run concatenate to %s, the input was %s", i, clip(hx(cat), 300), clip(hx(input), 300))
 		}
 		if got := typRaw(o.seqs[i]); got != want {
 			return fmt.Sprintf("consumer %d received %s; sequential framing gives %s", i, clip(got, 300), clip(want, 300))
